@@ -837,6 +837,135 @@ def fresh_template(case):
     return tmpl, tr
 
 
+def model_branches(events, tr):
+    """which branches of the model (lean/Genshi/Model/I18n*.lean) a template stream selects:
+    keys for `res.dist` (`br:...`), computed from the stream the correspondence sends — the
+    directive lists of SUB events decide the paths through `reorderGo`, `subLoop1` (the loop that
+    pops under its own iterator) and `subLoop2`; the position inside an excluded element decides
+    the `skip + 1` clauses; the shape of a message / choose body decides the clauses of
+    `msgBuffer`, `msgExtract`, `branchExtract`, `chooseStep`"""
+    from genshi.core import START, END, TEXT, XML_NAMESPACE
+    from genshi.template.base import SUB, EXPR
+    from genshi.filters import i18n
+    from genshi.template.directives import StripDirective
+    xml_lang = XML_NAMESPACE['lang']
+    fs = set()
+
+    def kind(d):
+        for cls, k in ((i18n.DomainDirective, 'domain'), (i18n.CommentDirective, 'comment'), (i18n.ContextDirective, 'ctxt'),
+                       (i18n.MsgDirective, 'msg'), (i18n.ChooseDirective, 'choose'), (i18n.SingularDirective, 'singular'),
+                       (i18n.PluralDirective, 'plural')):
+            if isinstance(d, cls):
+                return k
+        if isinstance(d, StripDirective):
+            return 'strip'
+        return 'other'
+
+    def walk(evs, where):
+        skip = 0
+        for e in evs:
+            k, data = e[0], e[1]
+            if k is START:
+                tag, attrs = data
+                if skip:
+                    skip += 1
+                    fs.add('pass:start-while-skipping')
+                elif tag in tr.ignore_tags or isinstance(attrs.get(xml_lang), str):
+                    skip = 1
+                    fs.add('pass:excluded-' + ('tag' if tag in tr.ignore_tags else 'lang') + '@' + where)
+                for name, v in attrs:
+                    if isinstance(v, str):
+                        if name in tr.include_attrs:
+                            fs.add('attr:included-blank' if not v.strip() else 'attr:included-skipped' if skip else 'attr:included')
+                    else:
+                        fs.add('attr:interpolated' + ('-while-skipping' if skip else ''))
+            elif k is END:
+                if skip:
+                    skip -= 1
+            elif k is TEXT:
+                if not skip and where in ('singular', 'plural', 'msg-sub'):
+                    fs.add('text:fragment@' + where + (':letter' if has_letter(data.strip()) else ':noletter' if data.strip() else ':blank'))
+            elif k is SUB:
+                ds, body = data
+                ks = [kind(d) for d in ds]
+                fs.add('sub:' + '+'.join(ks))
+                if skip:
+                    fs.add('pass:sub-while-skipping')
+                # reorderGo: something is moved
+                front = [x for x in ks if x == 'domain'] + [x for x in ks if x == 'ctxt']
+                if front and ks[:len(front)] != front:
+                    fs.add('reorder:moves')
+                if 'domain' in ks and 'ctxt' in ks:
+                    fs.add('reorder:domain+ctxt')
+                # subLoop1: pops under the iterator
+                i = 0
+                cur = list(ks)
+                skipped = False
+                while i < len(cur):
+                    if cur[i] in ('comment', 'ctxt') or cur[i] in ('strip', 'other'):
+                        if cur[i] in ('comment', 'ctxt') and len(cur) == 1:
+                            fs.add('x1:%s-alone' % cur[i])
+                        cur.pop(i)
+                        if i < len(cur):
+                            skipped = True
+                    i += 1
+                if skipped:
+                    fs.add('x1:pop-skips-a-directive')
+                if not cur and not ('comment' in ks or 'ctxt' in ks):
+                    fs.add('x1:all-popped-plain-extract')
+                if [x for x in cur if x not in ('msg', 'choose')] and [x for x in cur if x in ('msg', 'choose')]:
+                    fs.add('x2:extra-extract-next-to-message')
+                body = list(body)
+                if 'msg' in ks:
+                    first_start = bool(body) and body[0][0] is START
+                    fs.add('msg:attr-form' if first_start else 'msg:elem-form')
+                    fs.add('msg:events=%s' % (len(body) if len(body) < 3 else '3+'))
+                    if any(x[0] is SUB for x in body):
+                        fs.add('msg:has-sub')
+                    if body and body[-1][0] is not END:
+                        fs.add('msg:last-not-end')
+                    if sum(1 for x in body if x[0] is EXPR) > len([d for d in ds if isinstance(d, i18n.MsgDirective)][0].params):
+                        fs.add('msg:more-exprs-than-params')
+                    walk(body, 'msg')
+                elif 'choose' in ks:
+                    first_start = bool(body) and body[0][0] is START
+                    fs.add('choose:attr-form' if first_start else 'choose:elem-form')
+                    inner = body[1:-1] if first_start else body
+                    for x in inner:
+                        if x[0] is SUB:
+                            xs = [kind(d) for d in x[1][0]]
+                            if 'singular' in xs or 'plural' in xs:
+                                b = list(x[1][1])
+                                fs.add('choose:branch-' + ('attr' if b and b[0][0] is START else 'elem') + '-form')
+                                if 'strip' in xs:
+                                    fs.add('choose:branch+strip')
+                                if [y for y in xs if y not in ('singular', 'plural', 'strip')]:
+                                    fs.add('choose:branch+other-directive')
+                            else:
+                                fs.add('choose:sub-outside-branches')
+                        elif x[0] is TEXT and x[1].strip():
+                            fs.add('choose:text-outside-branches')
+                    if body and body[-1][0] is SUB:
+                        fs.add('choose:last-event-is-branch')
+                    walk(body, 'choose')
+                else:
+                    w = where
+                    if 'singular' in ks:
+                        w = 'singular'
+                    elif 'plural' in ks:
+                        w = 'plural'
+                    elif where in ('msg', 'msg-sub', 'singular', 'plural'):
+                        w = 'msg-sub' if where in ('msg', 'msg-sub') else where
+                    walk(body, w)
+    walk(list(events), 'top')
+    return fs
+
+
+def MarkupTemplateCheck(case):
+    from genshi.template import MarkupTemplate
+    return MarkupTemplate(src(case)).stream
+
+
 def corr_lines(case, rng):
     """[(stream name, request line, real answer)] for one template case; every real call works on
     a fresh template because both passes edit the directive lists in place (C10)"""
@@ -851,6 +980,11 @@ def corr_lines(case, rng):
     w = Wire()
     stream = tmpl.stream
     wired = w.stream(stream)
+    case_branches = sorted(model_branches(stream, tr))
+    if frames:
+        case_branches.append('ctx:frames=' + '+'.join(k for k, _ in frames))
+    case_branches.append('pass:tt=%s,ta=%s' % (int(tt), int(ta)))
+    out.append(('branches', None, case_branches))
     cat = KeyedCatalogue(CATS[catkind])
     tr.translate = cat
     ctxt = Context()
@@ -1181,7 +1315,33 @@ def shard(arg):
             res.failures.append({'case': c, 'what': 'harness self-check: a generated case lies inside the stated hypotheses '
                                                     '(in_hypotheses disagrees with gen_i18n.Gen)', 'expected': True, 'observed': False})
         try:
-            triples.extend(t + (c,) for t in corr_lines(c, rng))
+            for t in corr_lines(c, rng):
+                if t[0] == 'branches':
+                    for b in t[2]:
+                        res.count('br:' + b)
+                else:
+                    triples.append(t + (c,))
+        except Exception as e:  # noqa
+            res.disagreements.append({'stream': 'harness', 'case': c, 'model': '', 'real': 'corr_lines raised %s: %s' % (type(e).__name__, e)})
+    # templates aimed at rarely reached model branches: correspondence only (many lie outside the
+    # hypotheses of the oracle); counted under `rare:` / `br:`
+    rrng = random.Random('%s/%s/C19/rare' % (seed, idx))
+    for _ in range(max(1, n // 8)):
+        c = G.gen_rare_case(rrng)
+        res.count('rare:cases')
+        try:
+            MarkupTemplateCheck(c)
+        except Exception as e:  # noqa
+            res.count('rare:unparsable:' + type(e).__name__)
+            continue
+        try:
+            for t in corr_lines(c, rrng):
+                if t[0] == 'branches':
+                    for b in t[2]:
+                        res.count('br:' + b)
+                        res.count('rare:br:' + b)
+                else:
+                    triples.append(t + (c,))
         except Exception as e:  # noqa
             res.disagreements.append({'stream': 'harness', 'case': c, 'model': '', 'real': 'corr_lines raised %s: %s' % (type(e).__name__, e)})
     triples.extend(buffer_lines(rng, 3 * n))
